@@ -108,6 +108,16 @@ Theorem C14_source_compute_slots : forall rq,
   snd (g_compute_spectrum_slot_vs_bandwidth (bit_rate rq) (spacing rq) (bit_rate rq) slot_width) = rq_pcm rq.
 Proof. exact gen_compute_slots. Qed.
 Print Assumptions C14_source_compute_slots.
+(* the decisions themselves: the if/elif chain of compute_n_m's loop body, and the skip / not-enough-reserved /
+   no-spectrum / commit decisions of pth_assign_spectrum, translated from the source (the list bookkeeping and the commit
+   loops around them are matched against a template, fail-closed) *)
+Theorem C14_source_cnm_step : forall test req rem pcm p s,
+  g_cnm_step test req rem pcm p s = cnm_step test rem pcm p s.
+Proof. exact gen_cnm_step. Qed.
+Print Assumptions C14_source_cnm_step.
+Theorem C14_source_pth_assign_one : forall p st rq, g_pth_assign_one p st rq = pth_assign_one p st rq.
+Proof. exact gen_pth_assign_one. Qed.
+Print Assumptions C14_source_pth_assign_one.
 
 (* ---- non-vacuity: a concrete two-OMS network and a history with accepted, blocked and multi-slot requests *)
 Definition ex_b (c : list slot) : bitmap := mkB (-8) 8 (-6) 6 2 (zrange (-8) 9) c.
